@@ -110,6 +110,9 @@ impl<Error: Send + 'static> DecodeScheduler<Error> {
 					#[cfg(feature = "verif-hooks")]
 					crate::verif::sync_point("stream.error_flag.store");
 					self.shared.encountered_error.store(true, Ordering::SeqCst);
+					// the sound stops itself when it sees the error; retrying the
+					// decoder in a loop would only burn CPU until it does
+					break;
 				}
 			}
 		});
